@@ -43,5 +43,7 @@ SEEDED = [
     ("C06-10", "C06-ORDER"),
     ("C06-11", "C06-PURE"),
     ("C06-13", "C06-PURE"),
+    ("C06-14", "C06-ORDER"),
+    ("C06-15", "C06-PURE"),
 ]
 MUTANTS = list(MUTANTS) + [_P("seed-" + sid, _os.path.join(_SEEDS, sid, "patch.diff"), rule) for sid, rule in SEEDED if _os.path.exists(_os.path.join(_SEEDS, sid, "patch.diff"))]
